@@ -71,22 +71,38 @@ class Case:
         self.sig = sig_of("convtools", spec, None)
 
     def run(self, env):
+        if "then" in self.spec:
+            # two geometries back to back in one process: nothing may be remembered from the first call
+            first = Case({k: v for k, v in self.spec.items() if k != "then"})
+            first.prefix = "first:"
+            o1 = first.run(env)
+            second = Case(self.spec["then"])
+            second.prefix = "second:"
+            o2 = second.run(env)
+            o1.pairs += o2.pairs
+            o1.facts += o2.facts
+            return o1
+        return self._run(env)
+
+    prefix = ""
+
+    def _run(self, env):
         import synapgrad.conv_tools as ct
         sp = self.spec
         N, C, H, W = sp["N"], sp["C"], sp["H"], sp["W"]
         k, s, p, d = (tuple(sp[q]) for q in ("k", "s", "p", "d"))
         out = E.Outcome()
-        x = env.arr("x", (N, C, H, W))
-        pad = env.scalar("pad", lo=-3, hi=3, kind="data")
+        x = env.arr(self.prefix.replace(":", "_") + "x", (N, C, H, W))
+        pad = env.scalar(self.prefix.replace(":", "_") + "pad", lo=-3, hi=3, kind="data")
         lH, lW = out_len(H, k[0], s[0], p[0], d[0]), out_len(W, k[1], s[1], p[1], d[1])
         Lw = lH * lW
         uref = unfold_ref(x, k, s, p, d, pad)
         cref = cols2d(uref)
         fns = {"im2col": ct.im2col, "im2col_v2": ct.im2col_v2, "im2col_fast": ct.im2col_fast}
         for nm, f in fns.items():
-            out.pair(nm + "(as_unfold)", f(x, k, d, s, p, pad, as_unfold=True), uref)
-            out.pair(nm + "(2-D)", f(x, k, d, s, p, pad, as_unfold=False), cref)
-        y = env.arr("y", (N, C * k[0] * k[1], Lw))
+            out.pair(self.prefix + nm + "(as_unfold)", f(x, k, d, s, p, pad, as_unfold=True), uref)
+            out.pair(self.prefix + nm + "(2-D)", f(x, k, d, s, p, pad, as_unfold=False), cref)
+        y = env.arr(self.prefix.replace(":", "_") + "y", (N, C * k[0] * k[1], Lw))
         y2 = cols2d(y)
         if env.sym:
             from ..symnum import array as ar
@@ -96,8 +112,8 @@ class Case:
         fref = fold_ref(y, (N, C, H, W), k, s, p, d)
         gns = {"col2im": ct.col2im, "col2im_v2": ct.col2im_v2, "col2im_fast": ct.col2im_fast}
         for nm, f in gns.items():
-            out.pair(nm + "(N x CkHkW x L)", f(y, (N, C, H, W), k, d, s, p), fref)
-            out.pair(nm + "(2-D)", f(y2, (N, C, H, W), k, d, s, p), fref)
+            out.pair(self.prefix + nm + "(N x CkHkW x L)", f(y, (N, C, H, W), k, d, s, p), fref)
+            out.pair(self.prefix + nm + "(2-D)", f(y2, (N, C, H, W), k, d, s, p), fref)
         # sliding-window extractor and its placement routine
         win = ct.extract_windows(x, k, s, p, d, pad_value=pad)
         wref = objarr((lH, lW, N, C, k[0], k[1]))
@@ -107,7 +123,7 @@ class Case:
                     for c in range(C):
                         for q, v in enumerate(win2d(x, n, c, i, j, k, s, p, d)):
                             wref[i, j, n, c, q // k[1], q % k[1]] = pad if v is PAD else v
-        out.pair("extract_windows", win, wref)
+        out.pair(self.prefix + "extract_windows", win, wref)
         wy = objarr((lH, lW, N, C, k[0], k[1]))
         for i in range(lH):
             for j in range(lW):
@@ -121,19 +137,19 @@ class Case:
             wy = ar.wrap(wy, np.float32)
         else:
             wy = np.array(wy, dtype=y.dtype)
-        out.pair("place_windows", ct.place_windows(wy, (N, C, H, W), k, s, p, d), fref)
+        out.pair(self.prefix + "place_windows", ct.place_windows(wy, (N, C, H, W), k, s, p, d), fref)
         # adjointness <im2col(x), y> = <x, col2im(y)>  (zero padding) for the three implementation pairs
         for (n1, f), (n2, g) in zip(fns.items(), gns.items()):
             lhs = dot(f(x, k, d, s, p, 0, as_unfold=True), y)
             rhs = dot(x, g(y, (N, C, H, W), k, d, s, p))
-            out.pair("adjoint <%s(x),y> = <x,%s(y)>" % (n1, n2), [lhs], [rhs])
+            out.pair(self.prefix + "adjoint <%s(x),y> = <x,%s(y)>" % (n1, n2), [lhs], [rhs])
         # fold(unfold(x)) = count * x
         cnt = fold_ref(np.ones((N, C * k[0] * k[1], Lw)), (N, C, H, W), k, s, p, d)
         back = ct.col2im_fast(ct.im2col_fast(x, k, d, s, p, 0, as_unfold=True), (N, C, H, W), k, d, s, p)
         cx = objarr((N, C, H, W))
         for idx in np.ndindex(N, C, H, W):
             cx[idx] = cnt[idx] * x[idx]
-        out.pair("col2im(im2col(x)) = count*x", back, cx)
+        out.pair(self.prefix + "col2im(im2col(x)) = count*x", back, cx)
         return out
 
 
@@ -145,6 +161,15 @@ def enumerate_specs(tier):
     for idx, (hw, k, s, p, d) in enumerate(geos):
         nc = [(1, 1), (2, 1), (1, 2)][idx % 3] if tier == "quick" else [(1, 1), (2, 2), (1, 2), (2, 1)][idx % 4]
         specs.append({"N": nc[0], "C": nc[1], "H": hw[0], "W": hw[1], "k": list(k), "s": list(s), "p": list(p), "d": list(d)})
+    # sequences: a geometry followed, in the same process, by its transpose (same C, kernel, stride, dilation and number of
+    # windows, different split into rows and columns) or by the same image with the padding moved to the other axis
+    seq = []
+    for idx, (hw, k, s, p, d) in enumerate(geos):
+        if k[0] == k[1] and s[0] == s[1] and d[0] == d[1] and hw[0] != hw[1]:
+            a = {"N": 1, "C": 1 + idx % 2, "H": hw[0], "W": hw[1], "k": list(k), "s": list(s), "p": list(p), "d": list(d)}
+            b = dict(a, H=hw[1], W=hw[0], p=[p[1], p[0]])
+            seq.append(dict(a, then=b))
+    specs += seq[:: (4 if tier == "quick" else 1)]
     return specs
 
 
